@@ -42,6 +42,19 @@ fn u_no_deps_pat(N(a): N, N(b): N) -> i32 {
 async fn u_no_deps_async(a: i32, b: i32) -> i32 {
     a - b
 }
+/// no_deps: parameters that get generated names before / between plain ones
+#[entrait(UNoDepsMixed, no_deps, mock_api = UNoDepsMixedMock)]
+fn u_no_deps_mixed((ox, oy): (i32, i32), point: (i32, i32)) -> (i32, i32) {
+    (point.0 - ox, point.1 - oy)
+}
+#[entrait(UNoDepsMixed4, no_deps, mock_api = UNoDepsMixed4Mock)]
+fn u_no_deps_mixed4(_: u8, a: u8, (b, c): (u8, u8), d: u8) -> u8 {
+    a - b - c - d
+}
+#[entrait(UMixed4, mock_api = UMixed4Mock)]
+fn u_mixed4<D>(deps: &D, _: u8, a: u8, (b, c): (u8, u8), d: u8) -> u8 {
+    a - b - c - d
+}
 pub struct App;
 #[entrait(UConcrete, mock_api = UConcreteMock)]
 fn u_concrete(deps: &App, a: i32, b: i32) -> i32 {
